@@ -32,6 +32,9 @@ from common import coq_failing, rng_for, CoqError, g_list, g_nats, g_bool, g_pai
 logging.getLogger('labtech').setLevel(logging.CRITICAL)
 
 
+CWD0 = os.getcwd()
+
+
 class LocalFsspec(FsspecStorage):
     def fs_constructor(self):
         return LocalFileSystem()
@@ -45,6 +48,13 @@ class MemoryFsspec(FsspecStorage):
 def make_storage(kind, workdir):
     if kind == 'local':
         return LocalStorage(os.path.join(workdir, 'store'))
+    if kind == 'local-relative':
+        # the storage directory is given relative to the working directory of the moment; the process moves on afterwards
+        os.chdir(workdir)
+        st = LocalStorage('store')
+        os.makedirs(os.path.join(workdir, 'elsewhere', 'store'), exist_ok=True)
+        os.chdir(os.path.join(workdir, 'elsewhere'))
+        return st
     if kind == 'fsspec-local':
         return LocalFsspec(os.path.join(workdir, 'fstore'))
     if kind == 'fsspec-memory':
@@ -59,7 +69,7 @@ def make_storage(kind, workdir):
 # ------------------------------------------------------------------ histories (C06, C08, C09 store level)
 
 def gen_history(rng, tier):
-    case = S.gen_case(rng, max_n=6, p_fail=0.1, runner=rng.choice(['l1', 'l1', 'serial', 'serial', 'fork']), ntypes=11)
+    case = S.gen_case(rng, max_n=6, p_fail=0.1, runner=rng.choice(['l1', 'l1', 'serial', 'serial', 'fork']), ntypes=12)
     case['pre'] = []
     case['storage'] = 'local'
     n = case['n']
@@ -75,7 +85,7 @@ def gen_history(rng, tier):
         elif r < 0.8:
             ops.append(['is_cached', rng.randrange(n)])
         else:
-            ops.append(['cached', sorted(rng.sample(range(11), rng.randint(1, 4)))])
+            ops.append(['cached', sorted(rng.sample(range(12), rng.randint(1, 4)))])
     if rng.random() < 0.3 and n >= 2:
         # directed pattern: a run that is abandoned at the first failure, then a run in which a dependency fails
         # (state surviving the abandoned run must not leak into the next one)
@@ -94,7 +104,7 @@ def gen_history(rng, tier):
             tops = [t for t in range(n) if t not in gone] or [n - 1]
             ops = [['run', everything, False, True, []], ['uncache', gone],
                    ['run', [[t, 0] for t in rng.sample(tops, rng.randint(1, len(tops)))], False, True, []],
-                   ['cached', sorted(rng.sample(range(11), 4))]] + ops[:3]
+                   ['cached', sorted(rng.sample(range(12), 4))]] + ops[:3]
     if case['runner'] == 'fork':
         # a real worker saves its result on its own; when run_tasks raises at the first failure, results of workers whose
         # completion was never processed are (legitimately) in the cache although the coordinator never saw them: the
@@ -102,7 +112,7 @@ def gen_history(rng, tier):
         for op in ops:
             if op[0] == 'run':
                 op[3] = True
-    provider = rng.choice(['local', 'local', 'fsspec-local', 'fsspec-memory', 'null'])
+    provider = rng.choice(['local', 'local', 'local-relative', 'fsspec-local', 'fsspec-memory', 'null'])
     if provider == 'fsspec-memory' and case['runner'] == 'fork':
         case['runner'] = 'serial'      # an in-memory filesystem written by a forked worker is not visible to the caller
     return dict(case=case, ops=ops, provider=provider, seed=rng.randrange(1 << 30))
@@ -123,7 +133,12 @@ def run_history(h):
         os.environ['LV_FAILDIR'] = faildir
         epoch = 0
         stored = {}     # task id -> full value (with epoch) of its last successful execution under a caching type
-        for op in h['ops']:
+        for opno, op in enumerate(h['ops']):
+            if h['provider'] == 'local-relative':
+                # the process keeps changing its working directory between operations
+                alt = os.path.join(workdir, f'elsewhere{opno % 2}')
+                os.makedirs(os.path.join(alt, 'store'), exist_ok=True)
+                os.chdir(alt)
             if op[0] == 'run':
                 epoch += 1
                 os.environ['LV_EPOCH'] = f'run{epoch}'
@@ -177,6 +192,11 @@ def run_history(h):
                     outs.append(['laberror', fails[-1] if fails else -1])
                 except BaseException as e:   # noqa
                     outs.append(['other', repr(e)[:200]])
+                # by the harness's own bookkeeping (not is_cached): a task stored by an earlier call and not uncached since is loaded
+                if not op[2]:
+                    again = [e[1] for e in rec.ev if e[0] == 'submit' and not e[2] and e[1] in stored]
+                    if again:
+                        problems.append(('cached-but-executed', f'tasks {again} were executed again although an earlier call had stored their results and nothing uncached them'))
                 # C06: a loaded result is the one the last successful execution produced (epoch included)
                 will_load = {e[1] for e in rec.ev if e[0] == 'submit' and e[2]}
                 for e in rec.ev:
@@ -200,6 +220,10 @@ def run_history(h):
                 unneeded = [t for t in _after if t not in _before and t not in need]
                 if unneeded:
                     problems.append(('entry-appeared-unneeded', f'tasks {unneeded} were executed and stored by a run_tasks call that did not need them (requested {[t for t, _ in op[1]]}, cached before: {_before})'))
+                if op[2]:
+                    loaded_under_bust = [e[1] for e in rec.ev if e[0] == 'submit' and e[2]]
+                    if loaded_under_bust:
+                        problems.append(('loaded-under-bust', f'bust_cache=True, yet tasks {loaded_under_bust} were loaded from the cache instead of being executed again'))
                 # C06 monitor: a task that was cached (and bust is off) must be loaded, not executed
                 for e in rec.ev:
                     if e[0] == 'submit' and not op[2] and was_cached[e[1]] and not e[2]:
@@ -211,6 +235,9 @@ def run_history(h):
                 try:
                     lab.uncache_tasks([built.canon[t] for t in op[1]])
                     outs.append(['unit'])
+                    left = [t for t in op[1] if lab.is_cached(built.canon[t])]
+                    if left:
+                        problems.append(('uncache-left-entry', f'uncache_tasks({op[1]}) returned but tasks {left} are still reported as cached'))
                 except BaseException as e:   # noqa
                     outs.append(['other', repr(e)[:200]])
                 oracles.append(None)
@@ -264,6 +291,7 @@ def run_history(h):
     finally:
         os.environ.pop('LV_FAILDIR', None)
         os.environ.pop('LV_EPOCH', None)
+        os.chdir(CWD0)
         shutil.rmtree(workdir, ignore_errors=True)
 
 
@@ -373,8 +401,8 @@ def run_histories(prop, report, tier, seed, replay=None):
         dist[f"len={len(h['ops'])}"] += 1
         for out in obs['outs']:
             dist[f'out={out[0]}'] += 1
-        owner = {'entry-lost-by-run': ['C08', 'C06'], 'entry-appeared': ['C08'], 'entry-appeared-unneeded': ['C08'], 'cached-but-executed': ['C06'], 'no-result-meta': ['C06'], 'result-meta-differs': ['C06'],
-                 'other-task-served': ['C06'], 'loaded-value-differs': ['C06'], 'stale-read-of-failed-dep': ['C02'], 'stale-dependency-value': ['C01', 'C02'],
+        owner = {'entry-lost-by-run': ['C08', 'C06'], 'entry-appeared': ['C08'], 'entry-appeared-unneeded': ['C08', 'C03'], 'cached-but-executed': ['C06', 'C03'], 'no-result-meta': ['C06'], 'result-meta-differs': ['C06'],
+                 'other-task-served': ['C06'], 'loaded-value-differs': ['C06', 'C08'], 'uncache-left-entry': ['C08'], 'loaded-under-bust': ['C08', 'C01', 'C02'], 'stale-read-of-failed-dep': ['C02'], 'stale-dependency-value': ['C01', 'C02'],
                  'foreign-task': ['C09', 'C08'], 'key-differs': ['C09', 'C08'], 'no-meta': ['C09'], 'listed-twice': ['C09', 'C08'], 'listed-not-cached': ['C08', 'C09']}
         for sig, what in obs['problems']:
             if prop in owner.get(sig, []):
@@ -428,16 +456,33 @@ class CountingFile:
 
     def __init__(self, st, f, binary):
         self.st, self.f, self.binary = st, f, binary
+        self.buffered = []
+        self.closed = False
 
     def write(self, data):
         self.st.before('write')
-        r = self.f.write(data)
+        if self.st.commit_at_close:
+            # like an object store: nothing is durable before close() (which may fail)
+            self.buffered.append(data)
+            r = len(data)
+        else:
+            r = self.f.write(data)
         self.st.done('write')
         return r
 
+    def flush(self):
+        for data in self.buffered:
+            self.f.write(data)
+        self.buffered = []
+        self.f.flush()
+
     def close(self):
+        if self.closed:
+            return
         self.st.before('close', file=self.f)
+        self.flush()
         self.f.close()
+        self.closed = True
         self.st.done('close')
 
     def __enter__(self):
@@ -455,8 +500,9 @@ class FaultyStorage(Storage):
     """LocalStorage that performs mkdir and open as two separate effects, counts effects, and stops the writer
     (exception, or os._exit for kills) once `fail_after` effects have completed."""
 
-    def __init__(self, inner, fail_after=None, kill=False, flushed=True):
-        self.inner, self.fail_after, self.kill, self.flushed = inner, fail_after, kill, flushed
+    def __init__(self, inner, fail_after=None, kill=False, flushed=True, exc='exception', commit_at_close=False):
+        self.inner, self.fail_after, self.kill, self.flushed, self.exc = inner, fail_after, kill, flushed, exc
+        self.commit_at_close = commit_at_close
         self.count = 0
         self.trace = []
         self.armed = True
@@ -473,6 +519,8 @@ class FaultyStorage(Storage):
                         except Exception:
                             pass
                 os._exit(9)
+            if self.exc == 'interrupt':
+                raise KeyboardInterrupt(f'injected before {kind} after {self.count} effects')
             raise Fault(f'injected before {kind} after {self.count} effects')
 
     def done(self, kind):
@@ -495,8 +543,9 @@ class FaultyStorage(Storage):
         self.before('open')
         f = self.inner.file_handle(key, filename, mode=mode)
         self.done('open')
-        self.open_files.append(f)
-        return CountingFile(self, f, 'b' in mode)
+        cf = CountingFile(self, f, 'b' in mode)
+        self.open_files.append(cf if self.commit_at_close else f)
+        return cf
 
     def delete(self, key):
         return self.inner.delete(key)
@@ -554,9 +603,13 @@ def split_counts(trace):
     return parts[0], parts[1]
 
 
-def _child_save(d, cache_kind, shape, n, flushed):
+def _inner_storage(d, kind):
+    return LocalFsspec(os.path.join(d, 's')) if kind == 'fsspec' else LocalStorage(os.path.join(d, 's'))
+
+
+def _child_save(d, cache_kind, shape, n, flushed, inner_kind='local'):
     logging.getLogger('labtech').setLevel(logging.CRITICAL)
-    st = FaultyStorage(LocalStorage(os.path.join(d, 's')), fail_after=n, kill=True, flushed=flushed)
+    st = FaultyStorage(_inner_storage(d, inner_kind), fail_after=n, kill=True, flushed=flushed)
     lab = Lab(storage=st, continue_on_failure=True, runner_backend='serial', notebook=False)
     lab.run_tasks([fault_task(cache_kind, shape)], bust_cache=True, disable_progress=True, disable_top=True)
     os._exit(0)
@@ -566,7 +619,7 @@ def run_fault(fc):
     """One save with a fault after fc['n'] effects; returns what is observable afterwards."""
     d = tempfile.mkdtemp(dir=subdir('fault'))
     try:
-        inner = LocalStorage(os.path.join(d, 's'))
+        inner = _inner_storage(d, fc.get('inner', 'local'))
         t = fault_task(fc['cache'], fc['shape'])
         old_value = OLD_VALUES[fc.get('old') or 'small']
         if fc['overwrite']:
@@ -581,14 +634,17 @@ def run_fault(fc):
         reported_failed = None
         if fc['crash']:
             ctx = multiprocessing.get_context('fork')
-            p = ctx.Process(target=_child_save, args=(d, fc['cache'], fc['shape'], fc['n'], fc['flushed']))
+            p = ctx.Process(target=_child_save, args=(d, fc['cache'], fc['shape'], fc['n'], fc['flushed'], fc.get('inner', 'local')))
             p.start()
             p.join(60)
         else:
-            st = FaultyStorage(inner, fail_after=fc['n'])
+            st = FaultyStorage(inner, fail_after=fc['n'], exc=fc.get('exc', 'exception'), commit_at_close=bool(fc.get('commit_at_close')))
             lab = Lab(storage=st, continue_on_failure=True, runner_backend='serial', notebook=False)
-            res = lab.run_tasks([t], bust_cache=True, disable_progress=True, disable_top=True)
-            reported_failed = t not in res
+            try:
+                res = lab.run_tasks([t], bust_cache=True, disable_progress=True, disable_top=True)
+                reported_failed = t not in res
+            except KeyboardInterrupt:
+                reported_failed = True          # the interrupt went through run_tasks: nothing was reported as done
         lab2 = Lab(storage=inner, runner_backend='serial', notebook=False)
         cached = bool(lab2.is_cached(t))
         loaded = None
@@ -650,7 +706,7 @@ def run_faults(prop, report, tier, seed, replay=None):
         for (cache, shape), trace in traces.items():
             if crash and shape == 'unpicklable':
                 continue
-            points = list(range(len(trace) + (2 if crash else (1 if shape == 'unpicklable' else 0))))
+            points = list(range(len(trace) + (2 if crash else 1)))       # the last point: no fault at all
             if tier == 'quick' and len(points) > 16:
                 fcl = trace.index('close') if 'close' in trace else 3
                 keep = set(points[:4] + points[-5:] + [fcl - 1, fcl, fcl + 1, fcl + 2, fcl + 3, fcl + 4] + rng.sample(points, 3))
@@ -659,6 +715,13 @@ def run_faults(prop, report, tier, seed, replay=None):
                 for overwrite, old in ((False, None), (True, 'small'), (True, 'large')):
                     for flushed in ((True, False) if crash else (True,)):
                         fcs.append(dict(cache=cache, shape=shape, n=n, overwrite=overwrite, old=old, crash=crash, flushed=flushed))
+                    if shape == 'small' and old != 'large':
+                        # the same point on an fsspec-backed storage; and (exceptions only) the fault is a KeyboardInterrupt
+                        fcs.append(dict(cache=cache, shape=shape, n=n, overwrite=overwrite, old=old, crash=crash, flushed=True, inner='fsspec'))
+                        if not crash:
+                            fcs.append(dict(cache=cache, shape=shape, n=n, overwrite=overwrite, old=old, crash=False, flushed=True, exc='interrupt'))
+                            # a storage whose files become durable only when they are closed (close itself being a fault point)
+                            fcs.append(dict(cache=cache, shape=shape, n=n, overwrite=overwrite, old=old, crash=False, flushed=True, commit_at_close=True))
     terms, kept = [], []
     dist = Counter()
     for fc in fcs:
@@ -680,6 +743,9 @@ def run_faults(prop, report, tier, seed, replay=None):
             bad = ('cached-tasks-raised', f"cached_tasks {obs['listed']}")
         elif not crash and obs['reported_failed'] is False and fc['n'] < len(trace):
             bad = ('failure-not-reported', 'the save failed but the task was returned as successful')
+        if bad is None and not crash and fc['n'] >= len(trace) and fc['shape'] != 'unpicklable' and (not obs['cached'] or obs['loaded'] != 2):
+            bad = ('clean-save-not-loadable', f"no fault was injected, the save returned, but afterwards cached={obs['cached']} and loading gives "
+                                              f"{'the new value' if obs['loaded'] == 2 else obs['load_error'] or obs['loaded']}")
         if bad:
             sig = f'{prop}:{crash_class(fc, trace)}' if crash else f'{prop}:{bad[0]}'
             report.violation(sig, f"{bad[1]} [{crash_class(fc, trace)}; cache={fc['cache']}, result={fc['shape']}, effects completed={fc['n']}, flushed={fc['flushed']}]",
